@@ -142,7 +142,7 @@ def rule_rooteqonly(ctx):
     g = ctx.program.func("chord.rotate_bitmap_to_root", R)
     sg = ctx.S.get(g.qual)
     def _rot(x):
-        return x.op == "bin" and x.a[0] == "%" and tm.is_const(x.a[2], 12) and x.a[1].op == "bin" and x.a[1].a[0] == "+" and any(z.op == "param" and z.a[0] == "chord_root" for z in (x.a[1].a[1], x.a[1].a[2])) and any(y.op == "call" and call_name(y) == "np.nonzero" for y in tm.walk(x))
+        return x.op == "bin" and x.a[0] == "%" and tm.is_const(x.a[2], 12) and x.a[1].op == "bin" and x.a[1].a[0] == "+" and any(z.op == "param" and z.a[0] == "chord_root" for z in (x.a[1].a[1], x.a[1].a[2])) and any(y.op == "call" and call_name(y) in ("np.nonzero", "np.where") for y in tm.walk(x))
 
     rot = False
     for st in sg.sites:
